@@ -31,34 +31,8 @@ def main():
         if not os.path.exists(path):
             na.append({"property_id": pid, "reason": PENDING})
             continue
-        src = open(path).read()
-        g = {}
-        # read the static metadata without importing xdis/crosshair
-        for name in ("LEVEL", "EXPLANATION", "ASSUMPTIONS", "OUTSIDE", "BOUNDS"):
-            pass
-        mod_level = "model_checking"
-        import re
-        m = re.search(r'^EXPLANATION = \((.*?)^\s*\)?$', src, re.S | re.M)
-        try:
-            ns = {}
-            head = src.split("\ndef ", 1)[0]
-            # evaluate only the constant assignments
-            consts = {}
-            for name in ("LEVEL", "EXPLANATION", "ASSUMPTIONS", "OUTSIDE", "BOUNDS"):
-                mm = re.search(r"^%s = " % name, src, re.M)
-                if mm:
-                    # find the end of the expression by compiling progressively
-                    start = mm.start()
-                    lines = src[start:].split("\n")
-                    for n in range(1, len(lines) + 1):
-                        try:
-                            code = compile("\n".join(lines[:n]), "<m>", "exec")
-                        except SyntaxError:
-                            continue
-                        exec(code, {}, consts)
-                        break
-        except Exception as e:
-            raise
+        mod = importlib.import_module("props." + pid.lower())
+        consts = {n: getattr(mod, n) for n in ("LEVEL", "EXPLANATION", "ASSUMPTIONS", "OUTSIDE", "BOUNDS") if hasattr(mod, n)}
         text = consts.get("EXPLANATION", "")
         bounds = consts.get("BOUNDS", {})
         checks.append({
